@@ -120,6 +120,32 @@ static void battery(const Case &c) {
             M().mem[pos] = saved;
             vp::cls(consistent ? "alteration-undetectable-by-checksum" : "alteration-detected");
         }
+    // ---- storing over a medium whose data no longer matches its checksum cell, and storing an image with the same checksum as the one on the medium:
+    //      after a successful store the medium holds the stored image, whatever was there before
+    {
+        size_t positions[3] = {0, cfg.size / 2, cfg.size - 1};
+        for (size_t pi = 0; pi < 3; pi++) {
+            M().mem[cfg.data_addr() + positions[pi]] ^= (uint8_t)(0x21 + pi);        // out-of-band alteration of a data octet, left in place
+            vp::Block img(cfg.size); memcpy(img.p, model.data(), cfg.size);
+            CALL(c, "store", rc = persistent_store(&in.st, img.p));                     // the same image again
+            if (rc != PERSISTENT_ACCESS_SUCCESS) { F(c, "store:failed", acc_name(rc)); return; }
+            if (!check_state("store-over-altered-medium")) return;
+            vp::cls("store-over-altered-medium");
+        }
+        if (cfg.size >= 2) {
+            // a different image with the same trivial sum (two octets exchanged) resp. an image differing in one octet
+            Bytes other = model;
+            size_t i = 0, j = cfg.size - 1;
+            while (j > i && other[i] == other[j]) j--;
+            if (j > i) std::swap(other[i], other[j]); else other[0] ^= 0x5a;
+            vp::Block img(cfg.size); memcpy(img.p, other.data(), cfg.size);
+            CALL(c, "store", rc = persistent_store(&in.st, img.p));
+            if (rc != PERSISTENT_ACCESS_SUCCESS) { F(c, "store:failed", acc_name(rc)); return; }
+            model = other;
+            if (!check_state("store-permuted-image")) return;
+            vp::cls("store-image-with-same-octet-sum");
+        }
+    }
     // ---- reset
     for (uint8_t fill : {(uint8_t)0x00, (uint8_t)0xff, (uint8_t)0x5a}) {
         CALL(c, "reset", rc = persistent_reset(&in.st, fill));
@@ -140,7 +166,7 @@ static void run() {
     vp::CaseScope scope([] { return serc(g_cur); });
     size_t maxsize = a.thorough() ? 64 : 24;
     vp::stats().rule = vp::fmt("enum: data size 1..%zu x placement {0,1,5,40} x {default trivial sum, CRC-16/ARC, 32-bit sum} x aux buffer {none, sizes 0..size+1} x order of place/sum calls (incl. instances first configured with the checksum of the other width and then re-configured); per configuration: "
-                               "full store, every (offset,length) partial store/fetch incl. refused and arithmetic-overflow pairs, every single-octet alteration x 3 deltas, reset with 3 fill values; "
+                               "full store, every (offset,length) partial store/fetch incl. refused and arithmetic-overflow pairs, every single-octet alteration x 3 deltas, stores over a medium altered out of band and of an image with the same octet sum as the stored one, reset with 3 fill values; "
                                "every medium access is logged and checked against the instance's region; medium-call budget per operation; plus data sizes 255..257, 65535..65537, 70000 (thorough: 2^17+-1) with aux sizes around 2^8/2^16 and sampled part accesses/alterations", maxsize);
     vp::stats().exhaustive = true;
     uint64_t idx = 0;
